@@ -42,7 +42,7 @@ func strTerms(v Value) []*Term {
 	return out
 }
 
-var concretePool = []string{"", "a", "b", "c", "a", "b", "pkg:npm/x@1", "x y", "A", "a:b", "a+b"}
+var concretePool = []string{"", "a", "b", "c", "a", "b", "alpha", "beta", "gamma", "ab", "pkg:npm/x@1", "x y", "A", "a:b", "a+b", "c", "delta"}
 
 func (ex *Exec) concreteMode() bool { return ex.sh.cfg.Concrete }
 
